@@ -15,7 +15,7 @@ CONSTANTS
   EmitAt = 12
   MaxOps = 14
   GateMsgs = 4
-  GenStage = {"sub", "elected"}
+  GenStage = {"ready", "elected"}
   GenProc = {"none", "pad", "err"}
   VarMode = "all"
 INIT GInit
